@@ -149,14 +149,31 @@ def run(chk):
             holder['new'] = s.step_true()
         return holder['s'], holder['new']
 
-    def go_ns_sel():
-        s, new = get_ns()
+    holder_sys = {}
+
+    def get_ns_sys(holder=holder_sys):
+        if 's' not in holder:
+            s = setup('nonstatio', system=True)
+            holder['s'] = s
+            holder['new'] = s.step_true()
+        return holder['s'], holder['new']
+
+    def go_ns_sel(system=False):
+        s, new = get_ns_sys() if system else get_ns()
         d = s.d
         tpt = AT((1,), np.array([Poly.atom(('T', frozenset({'S_t'})))], dtype=object))
         xpt = AT((d,), np.array([Poly.atom(('X', j, frozenset({'S_x'}))) for j in range(d)], dtype=object))
-        dyn = s.loss.fields['dynamic_loss']
-        R = to_at(dyn.evaluate(tpt, xpt, s.loss.fields['u'], s.params))
-        sq = (R * R).data[0]
+        if system:
+            # a system of equations: the pairs are ranked by the sum over the equations of the squared residuals (as for the
+            # ODE and stationary generators)
+            sq = Poly()
+            for e, dyn in s.loss.fields['dynamic_loss_dict'].items():
+                R = to_at(dyn.evaluate(tpt, xpt, s.loss.fields['u_dict'], s.params))
+                sq = sq + jnp_sum(R * R, axis=-1).data[()] if R.axes != () else sq + (R * R).data[()]
+        else:
+            dyn = s.loss.fields['dynamic_loss']
+            R = to_at(dyn.evaluate(tpt, xpt, s.loss.fields['u'], s.params))
+            sq = (R * R).data[0]
         grid_flat = AT(("Prod(S_t,S_x)",), np.array(sq, dtype=object))
         k = Sym('max', *sorted((fz(SEL_T), fz(SEL_X)), key=repr))
         idx = Sym('top_k.idx', at_key(grid_flat), k)
@@ -172,6 +189,8 @@ def run(chk):
         return "added times / points = rows / columns of the top-k squared residuals of the time-major candidate grid"
     chk.run("C17.R2", f"{RAR}:_rar_step_init.rar_step_true", {"generator": "nonstatio", "loss": "single"}, go_ns_sel,
             construct="selection[nonstatio,single]")
+    chk.run("C17.R2", f"{RAR}:_rar_step_init.rar_step_true", {"generator": "nonstatio", "loss": "system"}, (lambda: go_ns_sel(system=True)),
+            construct="selection[nonstatio,system]")
 
     def go_ns_off():
         s, new = get_ns()
